@@ -55,6 +55,26 @@ for pid in ALL:
         "technique": P.get("technique", "Lean 4 theorems about the executable model + differential correspondence model<->C++ + oracle on implementation outputs"),
     })
 
+# validation before anything is written: the category is an enum of the schema, and the whole document
+# is checked against /root/.vp/MANIFEST.schema.json when the jsonschema module is available
+_sch_path = "/root/.vp/MANIFEST.schema.json"
+_cats = None
+try:
+    _sch = json.load(open(_sch_path))
+    _cats = _sch["properties"]["checks"]["items"]["properties"]["level_claimed"]["properties"]["category"].get("enum")
+except Exception:
+    _sch = None
+for c in man["checks"]:
+    cat = c["level_claimed"]["category"]
+    if (_cats and cat not in _cats) or " " in cat:
+        sys.exit("mkmanifest: invalid level category %r for %s" % (cat[:60], c["property_id"]))
+try:
+    import jsonschema
+    if _sch is not None:
+        jsonschema.validate(man, _sch)
+except ImportError:
+    pass
+
 with open(os.path.join(ROOT, "MANIFEST.json"), "w") as f:
     json.dump(man, f, indent=1)
 print("MANIFEST.json: %d checks, %d not claimed" % (len(man["checks"]), len(man["not_applicable"])))
